@@ -4,22 +4,31 @@ Require Import MV.C14.Model MV.C14.Spec MV.C14.Exec MV.C14.Proofs MV.C14.ProofsR
 Open Scope N_scope.
 Require Import MV.C14.Properties.
 
-Check (C14_model_meets_spec_partial : forall tr p, core p = true -> fst (run tr init p) = spec_outs tr p).
-Print Assumptions C14_model_meets_spec_partial.
-Check (C14_spec_ok_on_model_partial : forall c, core (snd c) = true -> spec_ok c (run_case c) = true).
-Print Assumptions C14_spec_ok_on_model_partial.
+Check (C14_model_meets_spec : forall tr p, core p = true -> fst (run tr init p) = spec_outs tr p).
+Print Assumptions C14_model_meets_spec.
+Check (C14_spec_ok_on_model : forall c, core (snd c) = true -> spec_ok c (run_case c) = true).
+Print Assumptions C14_spec_ok_on_model.
 Check (C14_spec_ok_iff : forall c o, spec_ok c o = true <-> o = spec_outs (fst c) (snd c)).
 Print Assumptions C14_spec_ok_iff.
-Check (C14_reads_back_content_partial : forall tr p, core p = true ->
+Check (C14_reads_back_content : forall tr p, core p = true ->
   map res_of (fst (run tr init p)) = map res_of (spec_outs tr p)).
-Print Assumptions C14_reads_back_content_partial.
-Check (C14_no_uaf_no_double_free_partial : forall tr p, core p = true ->
+Print Assumptions C14_reads_back_content.
+Check (C14_no_uaf_no_double_free : forall tr p, core p = true ->
   forallb (fun o => negb (is_fault (res_of o))) (fst (run tr init p)) = true).
-Print Assumptions C14_no_uaf_no_double_free_partial.
-Check (C14_balanced_partial : forall tr p, core p = true -> let m := snd (run tr init p) in all_consumed m ->
+Print Assumptions C14_no_uaf_no_double_free.
+Check (C14_balanced : forall tr p, core p = true -> let m := snd (run tr init p) in all_consumed m ->
   (forall a x, nth_error (allocs m) a = Some x -> a_freed x = true) /\
   (forall r x, nth_error (arcs m) r = Some x -> r_strong x = r_caller x /\ r_freed x = (r_caller x =? 0))).
-Print Assumptions C14_balanced_partial.
+Print Assumptions C14_balanced.
+Check (C14_balanced_counters : forall tr p, core p = true -> let m := snd (run tr init p) in all_consumed m ->
+  wsum da_of (fst (run tr init p)) = wsum held (arcs m) /\
+  wsum de_of (fst (run tr init p)) = wsum (held_elems tr) (arcs m)).
+Print Assumptions C14_balanced_counters.
+Check (C14_into_std_cow_kinds : forall tr s h d o, sget s h = Some (d, o) ->
+  sstep tr s (IntoStdCow h) =
+    (if std_borrowed o then (RStd true d, 0%Z, 0%Z) else (RStd false d, fst (release tr s (d, o)), snd (release tr s (d, o))),
+     sconsume s h)).
+Print Assumptions C14_into_std_cow_kinds.
 Check (C14_owned_cap0_is_borrowed_but_harmless : kind_of 0 0 = KBorrowed /\ op_core (FromOwned [] 0) = true /\
   forall tr m, step tr m (FromOwned [] 0) = (RUnit, push (add_elems m (ec tr 0)) (mkcow PDangling 0 0))).
 Print Assumptions C14_owned_cap0_is_borrowed_but_harmless.
